@@ -266,3 +266,23 @@ Fixpoint rows_of (i : Z) (ptr : list Z) : list Z :=
   | _ => []
   end.
 Definition m_uncompress (d : dty) (indptr : list Z) : tarr := s_uncompress_store d (rows_of 0 indptr).
+
+(* ---------------------------------------------------------------- convert._transpose (change_compressed_axes,
+   transpose, reshape of a GCXS): xd is the dtype of x.indices; (R, C) the new compressed shape; rc / cc
+   the new row / column coordinate of every stored element (computed by the kernel in intp), in the new
+   storage order.  Result: (indices, indptr), both in the dtype chosen for max(R, C, nnz). *)
+Definition transpose_dtype (xd : dty) (R C nnz : Z) : res dty :=
+  dec_dty (g_transpose_dtype (dty_pyv xd) (VInt (Z.max R C)) (VInt nnz)).
+Definition m_transpose (xd : dty) (R C : Z) (rc cc : list Z) : res (tarr * tarr) :=
+  d <- transpose_dtype xd R C (Z.of_nat (length rc)) ;;
+  let rows := s_transpose_store d rc in
+  let counts := map (fun r => count_eq r (tv rows)) (zrange R) in
+  Ok (s_transpose_store d cc, assign_into d (mkT (DInt i64) (0 :: cumsum_from 0 counts))).
+
+(* ---------------------------------------------------------------- named domain clauses (used by the theorems of
+   Proofs/IdxWidthP.v and by the judge of Corr/C15Judge.v) *)
+(* every index type except uint64 (uint64 (+) intp promotes to float64) *)
+Definition not_u64 (t : ity) : bool := sg t || (bits t <? 64).
+(* the row count of an index pointer fits its dtype (what uncompress_dimension relies on) *)
+Definition uncompress_clause (t : ity) (indptr : list Z) : bool :=
+  fits (DInt t) (Z.of_nat (length indptr) - 1).
